@@ -49,6 +49,8 @@ type devSpec struct {
 	password  string // "" = no password set (allow-all authenticator)
 	linkedIP  netip.Addr
 	dedicated netip.Addr
+	humanID   string // human-readable ID, in the case the device was named with
+	auto      bool   // created on demand through a human-readable ID
 	rec       *agd.Device
 }
 
@@ -60,6 +62,7 @@ type profSpec struct {
 	access    *access.ProfileConfig
 	rec       *agd.Profile
 	filtering bool
+	autoDevs  bool
 }
 
 var (
@@ -77,6 +80,13 @@ func init() {
 type universe struct {
 	profs []*profSpec
 	devs  []*devSpec
+
+	// visible is the number of devices that existed before the request under
+	// judgement was served.
+	visible int
+
+	// autoCreated counts the calls to the backend that created a device.
+	autoCreated int
 }
 
 // Addresses with a meaning.
@@ -123,6 +133,7 @@ func buildUniverse(t *kernel.Tape) (u *universe) {
 			qlog:      t.Chance(1, 2, "qlog"),
 			iplog:     t.Chance(1, 2, "iplog"),
 			filtering: true,
+			autoDevs:  t.Chance(1, 2, "auto-devices"),
 		}
 		if t.Chance(1, 2, "prof-access") {
 			p.access = &access.ProfileConfig{}
@@ -167,6 +178,14 @@ func buildUniverse(t *kernel.Tape) (u *universe) {
 		if i >= 3 && i < 5 {
 			d.dedicated = netip.MustParseAddr(dedicatedIPs[i-3])
 		}
+		switch i {
+		case 1:
+			d.humanID = "Phone-One"
+		case 4:
+			d.humanID = "tablet"
+		case 5:
+			d.humanID = "spare"
+		}
 		u.devs = append(u.devs, d)
 	}
 
@@ -191,6 +210,7 @@ func buildUniverse(t *kernel.Tape) (u *universe) {
 			FilteringEnabled:    p.filtering,
 			IPLogEnabled:        p.iplog,
 			QueryLogEnabled:     p.qlog,
+			AutoDevicesEnabled:  p.autoDevs,
 		}
 	}
 	for _, d := range u.devs {
@@ -203,6 +223,7 @@ func buildUniverse(t *kernel.Tape) (u *universe) {
 			ID:               d.id,
 			LinkedIP:         d.linkedIP,
 			Name:             agd.DeviceName("name-" + string(d.id)),
+			HumanIDLower:     agd.HumanIDLower(strings.ToLower(d.humanID)),
 			FilteringEnabled: true,
 		}
 		if d.dedicated.IsValid() {
@@ -228,8 +249,42 @@ func (u *universe) dev(id string) *devSpec {
 
 type storage struct{ u *universe }
 
-func (st *storage) CreateAutoDevice(context.Context, *profiledb.StorageCreateAutoDeviceRequest) (*profiledb.StorageCreateAutoDeviceResponse, error) {
-	return nil, errors.New("sim: auto devices not simulated")
+// CreateAutoDevice is the backend's side of automatic devices: idempotent per
+// (profile, lower-case human ID).
+func (st *storage) CreateAutoDevice(_ context.Context, req *profiledb.StorageCreateAutoDeviceRequest) (*profiledb.StorageCreateAutoDeviceResponse, error) {
+	lower := strings.ToLower(string(req.HumanID))
+	for _, d := range st.u.devs {
+		if d.attached && d.prof.id == req.ProfileID && strings.ToLower(d.humanID) == lower {
+			return &profiledb.StorageCreateAutoDeviceResponse{Device: d.rec}, nil
+		}
+	}
+	var prof *profSpec
+	for _, p := range st.u.profs {
+		if p.id == req.ProfileID {
+			prof = p
+		}
+	}
+	if prof == nil {
+		return nil, errors.New("sim backend: no such profile")
+	}
+	st.u.autoCreated++
+	d := &devSpec{
+		id:       agd.DeviceID(fmt.Sprintf("auto%d", st.u.autoCreated)),
+		prof:     prof,
+		attached: true,
+		humanID:  string(req.HumanID),
+		auto:     true,
+	}
+	d.rec = &agd.Device{
+		Auth:             &agd.AuthSettings{PasswordHash: agdpasswd.AllowAuthenticator{}},
+		ID:               d.id,
+		Name:             agd.DeviceName(req.HumanID),
+		HumanIDLower:     agd.HumanIDLower(lower),
+		FilteringEnabled: true,
+	}
+	st.u.devs = append(st.u.devs, d)
+
+	return &profiledb.StorageCreateAutoDeviceResponse{Device: d.rec}, nil
 }
 
 func (st *storage) Profiles(context.Context, *profiledb.StorageProfilesRequest) (*profiledb.StorageProfilesResponse, error) {
@@ -326,12 +381,14 @@ func (r *request) String() string {
 func (u *universe) identify(r *request) (who string, why string) {
 	var id string
 	byAddr := ""
+	fromUserinfo := false
 	switch r.srv.Protocol {
 	case agd.ProtoDNSCrypt:
 		return "", "dnscrypt is always anonymous"
 	case agd.ProtoDoH:
 		if r.user != "" || r.hasPass {
 			id = r.user
+			fromUserinfo = true
 			if id == "" {
 				return "ERROR", "userinfo without a user name"
 			}
@@ -357,7 +414,39 @@ func (u *universe) identify(r *request) (who string, why string) {
 	}
 
 	var d *devSpec
+	if ext, isExt := parseExtID(id); isExt && !fromUserinfo && r.srv.Protocol != agd.ProtoDNS {
+		// A human-readable identifier: device type, profile, name.
+		if ext == nil {
+			return "ERROR", "malformed human-readable identifier"
+		}
+		var prof *profSpec
+		for _, p := range u.profs {
+			if string(p.id) == ext.prof {
+				prof = p
+			}
+		}
+		if prof == nil {
+			return "", "human-readable id: no such profile"
+		}
+		for _, x := range u.devs[:u.visible] {
+			if x.attached && x.prof == prof && x.humanID != "" && strings.ToLower(x.humanID) == ext.human {
+				d = x
+			}
+		}
+		if d == nil {
+			if !prof.autoDevs {
+				return "", "human-readable id: no such device, and automatic devices are off"
+			}
+			if prof.deleted {
+				return "", "profile is deleted"
+			}
+
+			return string(prof.id) + "/AUTO:" + ext.human, "recognised (device created on demand)"
+		}
+		id = ""
+	}
 	switch {
+	case d != nil:
 	case id != "":
 		if _, err := agd.NewDeviceID(id); err != nil {
 			return "ERROR", "malformed device id"
@@ -412,6 +501,40 @@ func (u *universe) identify(r *request) (who string, why string) {
 	}
 
 	return string(d.prof.id) + "/" + string(d.id), "recognised"
+}
+
+type extID struct {
+	prof, human string
+}
+
+var knownDevTypes = []string{"win", "adr", "mac", "ios", "lnx", "rtr", "stv", "gam", "otr"}
+
+// parseExtID is the reference reading of "<type>-<profile>-<name>": a string
+// with at least two hyphens is such an identifier; it is malformed (ext ==
+// nil) unless the type is one of the documented three-letter codes and the
+// profile ID is well-formed.  Names are only generated in normal form.
+func parseExtID(s string) (ext *extID, isExt bool) {
+	if strings.Count(s, "-") < 2 {
+		return nil, false
+	}
+	parts := strings.SplitN(s, "-", 3)
+	okType := false
+	for _, k := range knownDevTypes {
+		if strings.EqualFold(k, parts[0]) {
+			okType = true
+		}
+	}
+	if !okType {
+		return nil, true
+	}
+	if _, err := agd.NewProfileID(strings.ToLower(parts[1])); err != nil {
+		return nil, true
+	}
+	if _, err := agd.NewHumanID(parts[2]); err != nil {
+		return nil, true
+	}
+
+	return &extID{prof: strings.ToLower(parts[1]), human: strings.ToLower(parts[2])}, true
 }
 
 func idFromSNI(sni string) string {
@@ -567,8 +690,18 @@ func run(s *kernel.Sim, prop, cfg string) {
 		}
 
 		*sn = seen{upDev: map[string]string{}}
+		u.visible = len(u.devs)
 		out, serr := serve(w, r, uint16(100+i))
 		who, why := u.identify(r)
+		if k := strings.Index(who, "/AUTO:"); k >= 0 {
+			// The device must have been created for this request.
+			for _, x := range u.devs[u.visible:] {
+				if string(x.prof.id) == who[:k] && strings.ToLower(x.humanID) == who[k+6:] {
+					who = who[:k] + "/" + string(x.id)
+					s.Probe("device-created-on-demand")
+				}
+			}
+		}
 
 		lname := strings.ToLower(r.name)
 		gotResp := out != nil && len(out.Msgs) > 0
@@ -699,6 +832,11 @@ func genRequest(t *kernel.Tape, u *universe, servers map[string]*agd.Server, kin
 
 	ids := []string{"", "dev0", "dev1", "dev2", "dev3", "dev4", "dev5", "nosuch", "DEV1", "bad id!"}
 	id := kernel.Pick(t, ids, "ident")
+	if t.Chance(1, 4, "human-readable-id") {
+		id = kernel.Pick(t, []string{"adr", "win", "OTR", "xxx", "rt"}, "dev-type") + "-" +
+			kernel.Pick(t, []string{"prof0", "prof1", "prof2", "nosuch", "PROF1"}, "ext-prof") + "-" +
+			kernel.Pick(t, []string{"phone-one", "Phone-One", "tablet", "spare", "newdev", "NewDev"}, "human")
+	}
 
 	switch r.srv.Protocol {
 	case agd.ProtoDoH:
